@@ -175,8 +175,11 @@ func (g *c05gen) cmd(ci int, profile string) []B {
 		case 4:
 			return bs("hlen", k)
 		case 5:
-			return bs("hincrby", k, "n", "1")
+			return bs("hincrby", k, "n", pick(r, []string{"1", "1", "9", "-1", "90"}))
 		default:
+			if r.Bool(0.5) {
+				return bs("hincrby", k, "n", "1")
+			}
 			return bs("hexists", k, f)
 		}
 	}
@@ -341,7 +344,7 @@ func historyClass(rr *RunResult) string {
 	sortStrings(names)
 	s := strings.Join(names, "+")
 	if len(s) > 60 {
-		s = fmt.Sprintf("%s+(%d cmds)", s[:50], len(names))
+		s = fmt.Sprintf("%s+(%d-cmds)", s[:50], len(names))
 	}
 	return s
 }
